@@ -455,6 +455,13 @@ def rule_h(ctx):
 
 
 def run(ctx):
+    # arguments that are overwritten (warm-start arrays, coefficient arrays) carry the state of one call into the next: C17.a on the solvers
+    from . import c17
+    from .common import shared
+    from ..effects import Effects
+
+    shared(ctx, "C16.h", c17.rule_a, Effects(ctx.model), (lambda mod, qn: any(w in mod for w in ("split_bregman_tvd", "h1_regularization", "tvd", "linear_solvers", "andersonacceleration"))), 1,
+           why="a solver that writes into the arrays it is given (x0, coefficients) makes the next call with the same arrays depend on this one")
     rule_h(ctx)
     rule_a(ctx)
     rule_b(ctx)
